@@ -475,7 +475,8 @@ def run_c12(ck):
             pv = os.path.join(vlib.RUN, "C12_%s.v" % mod)
             vlib.write_if_changed(pv, txt)
             if rc8 != 0:
-                cb_res[mod] = (cbinfo, rc8, out8, dtq, "C08_" + mod)
+                # the callbacks / stop lemmas of C12_cbq / C12_cbs do not need C08: report their own failure if they have one
+                cb_res[mod] = (cbinfo, rcq, outq, dtq, nq) if rcq != 0 else (cbinfo, rc8, out8, dtq, "C08_" + mod)
                 return mod, info, rc8, out8, dt8, False
 
             def cbt():
@@ -511,7 +512,8 @@ def run_c12(ck):
             ck.oblige("Theorem C12_callbacks_%s : forall s, Inv (Bty fwidth) s -> forall r s', Step s = Ok r s' -> callbacks_clause f_PPC f_PRK f_WDM s s'  "
                       "[registrations unchanged; with a = PRK'*65536+PPC': cbs (trace s') = wdm ++ pc ++ cbs (trace s), pc = [EvPC a] iff onpc s a, wdm = [EvWDM v] iff onwdm s and opcode = $42; "
                       "trace s' = tC ++ pc ++ tA ++ trace s with cbs tA = [] (interrupt entry), tC = tC' ++ [EvR a opcode] (the fetch follows the callback), cbs tC = wdm; "
-                      "opcode = $42 -> tC = wdm ++ [EvR a1 v; EvR a $42] and WDM' = v, a1 = PRK'*65536+(PPC'+1) mod 65536; %d routine lemmas (every routine but Step / op_wdm is quiet), "
+                      "opcode = $42 -> tC = wdm ++ [EvR a1 v; EvR a $42] and WDM' = v, a1 = PRK'*65536+(PPC'+1) mod 65536; %d routine lemmas (every routine reachable from Step but Step / op_wdm is quiet: "
+                      "no callback, PPC / PRK never assigned, Stopped assigned only by the routine of $DB), "
                       "WDM opcode(s) %s; %.0fs]" % (mod, len(cbinfo.get("lemmas", [])), cbinfo.get("wdm_opcodes"), dt), rc == 0,
                       "file %s, first lemma that no longer checks: %s" % (fname, failing))
             ck.oblige("Theorem C12_callbacks_run_%s : along n steps from a state with fields in their Go types, for every address a the number of EvPC a events grows by the number of steps "
@@ -523,7 +525,10 @@ def run_c12(ck):
         if all_ok:
             pv = os.path.join(vlib.RUN, "C12_run.v")
             vlib.write_if_changed(pv, RUN_V)
-            rc, out, dt, cached = vlib.coqc(pv, timeout=900)
+            ps = os.path.join(vlib.RUN, "C12_stop.v")
+            vlib.write_if_changed(ps, cpucb.STOP_V)
+            # C12_stop.v ("never before", tied to the fetched opcode) needs the cycles files and the callbacks files, not C12_run.v
+            (rc, out, dt, cached), stop_res = vlib.parallel([lambda: vlib.coqc(pv, timeout=900), lambda: (vlib.coqc(ps, timeout=900) if cb_ok else None)])
             ck.oblige("Theorems C12_run_until_65 / C12_run_until_alt / C12_run_steps_65 : RunUntil returns for every start state, target, budget < 2^64-255 and any fuel > budget; "
                       "truthful answer; nothing executed at the target; every executed Step started under the budget (static Props/RunProps.v instantiated with this run's Step contract); "
                       "C12_stop_history_65 / _alt, C12_stop_until_reset_65 / _alt : over EVERY history of Step / Reset / TriggerIRQ / triggerNMI calls from a state with fields in their Go types "
@@ -531,6 +536,27 @@ def run_c12(ck):
                       "the condition lasts from the Step that raised it until the next Reset, Reset clears it, TriggerIRQ / triggerNMI never change it", rc == 0, out[-800:])
             if rc == 0:
                 ck.assumptions += vlib.parse_assumptions(out)
+            if stop_res is not None:
+                rcs, outs, dts, _ = stop_res
+                fails = "" if rcs == 0 else (cpucb.failing_lemma(ps, outs) or "x") + " " + " ".join(outs[-500:].split())
+                stop_file = "C12_stop"
+            else:
+                rcs, dts, stop_file = 1, 0.0, (cb_broken[0][1] if cb_broken else "C12_cb")
+                fails = (cb_broken[0][2] if cb_broken else "the callbacks files do not compile")
+            for mod in ("GenCpu65", "GenCpuAlt"):
+                ck.oblige("Theorem C12_stop_only_stp_%s : forall s, Inv (Bty fwidth) s -> forall r s', Step s = Ok r s' -> with a = PRK'*65536+PPC', pc = [EvPC a] iff onpc s a: "
+                          "exists tA tC opcode, trace s' = tC ++ pc ++ tA ++ trace s /\\ cbs tA = [] /\\ (exists tC', tC = tC' ++ [EvR a opcode]) /\\ (Stopped' <> Stopped -> opcode = 219 /\\ Stopped' = 1)  "
+                          "[the opcode is the byte of the fetch event of the callbacks clause (same witness: C12_step_clause_%s); every routine reachable from Step except the one dispatched from $DB (%s) "
+                          "is proved to leave Stopped alone, nmi / irq included; %.0fs]" % (mod, mod, cb_res.get(mod, ({},))[0].get("stp_routines"), dts), rcs == 0,
+                          "file %s, first lemma that no longer checks: %s" % (stop_file, fails))
+            ck.oblige("Theorems C12_stop_never_before_<model>, C12_stop_never_before_since_reset_<model> (both models; static Props/StopProps.stop_never_before instantiated with this run's one-call "
+                      "theorems and C12_stop_fetch): in every history of Step / Reset / TriggerIRQ / triggerNMI calls from a state that is not stopped - or after a Reset, whatever happened before - "
+                      "as long as no Step of the history fetches opcode $DB every Step reports false and the Stopped field stays clear; non-vacuity ex_stp (pending IRQ, $DB at the vector target)",
+                      rcs == 0, fails)
+            if rcs == 0:
+                ck.assumptions += vlib.parse_assumptions(outs)
+            elif not cb_broken:
+                cb_broken.append(("both", stop_file, fails))
     # RunUntil on the real System: falsifier + tie of the loop model on the recorded trajectories
     if harness:
         ncase = 3000 if ck.tier == "thorough" else 400
@@ -593,7 +619,7 @@ def run_c12(ck):
         ck.cov["callbacks_falsifier"] = cbstats
         ck.cov["traces_validated_against_impl"] = ck.cov.get("traces_validated_against_impl", 0) + cbstats.get("cb_steps", 0)
     if models:
-        srcs = [os.path.join(vlib.COQ, "Props", "CbLib.v")] + [os.path.join(vlib.RUN, "C12_%s_%s.v" % (k, m)) for k in ("cbq", "cbs", "cb") for m in ("GenCpu65", "GenCpuAlt")]
+        srcs = [os.path.join(vlib.COQ, "Props", "CbLib.v"), os.path.join(vlib.COQ, "Props", "StopProps.v"), os.path.join(vlib.RUN, "C12_stop.v")] + [os.path.join(vlib.RUN, "C12_%s_%s.v" % (k, m)) for k in ("cbq", "cbs", "cb") for m in ("GenCpu65", "GenCpuAlt")]
         hyg = []
         for f in srcs:
             try:
@@ -602,14 +628,14 @@ def run_c12(ck):
                 hyg.append(f + ": missing")
                 continue
             hyg += ["%s: %s" % (os.path.basename(f), w) for w in re.findall(r"\b(Axiom|Parameter|Conjecture|Admitted|admit|Unset Guard Checking|Unset Universe Checking)\b", txt)]
-        fresh = vlib.static_vo_fresh(os.path.join(vlib.RUN, "C12_cb_GenCpu65.v"))
-        ck.oblige("callbacks clause: static Props/CbLib.vo is fresh; no Axiom/Parameter/Conjecture/Admitted/admit/guard switches in Props/CbLib.v and the generated C12_cb*.v", not hyg and fresh,
+        fresh = vlib.static_vo_fresh(os.path.join(vlib.RUN, "C12_cb_GenCpu65.v")) and (not os.path.exists(os.path.join(vlib.RUN, "C12_stop.v")) or vlib.static_vo_fresh(os.path.join(vlib.RUN, "C12_stop.v")))
+        ck.oblige("callbacks / stop clauses: static Props/CbLib.vo, StopProps.vo are fresh; no Axiom/Parameter/Conjecture/Admitted/admit/guard switches in Props/CbLib.v, Props/StopProps.v and the generated C12_cb*.v, C12_stop.v", not hyg and fresh,
                   "; ".join(hyg) or "stale static library: run ./check --setup")
     if cb_broken and not ck.violations:
         mod, fname, failing = cb_broken[0]
         ck.violation("C12.theorem.callbacks.%s.%s" % (mod, failing.split()[0] if failing else "x"), "broken-theorem",
-                     "callbacks lemma %s over the regenerated model %s no longer checks (file build/work/Run/%s.v); the Go falsifiers (callbacks clause on both real interpreters with pending "
-                     "interrupts and registrations at the vector targets, lockstep trace comparison, RunUntil callback counts) found no failing input" % (failing, mod, fname),
+                     "callbacks / stop-flag lemma %s over the regenerated model %s no longer checks (file build/work/Run/%s.v); the Go falsifiers (callbacks clause on both real interpreters with pending "
+                     "interrupts and registrations at the vector targets, stop flag rising in a Step that fetched no $DB, lockstep trace comparison, RunUntil callback counts) found no failing input" % (failing, mod, fname),
                      {"lemma": failing, "file": "build/work/Run/%s.v" % fname})
     bad = vlib.foreign_assumptions(ck.assumptions)
     ck.oblige("Print Assumptions: closed under the global context", not bad, "unexpected: %s" % bad)
@@ -628,7 +654,9 @@ def run_c12(ck):
         "callbacks": "OnPC / OnWDM: Theorems C12_callbacks_<model> (one Step: exactly once, after interrupt entry and immediately before the opcode fetch from the registered address; OnWDM receives "
                      "the operand byte) and C12_callbacks_run_<model> (n steps: count of EvPC a = number of steps fetched at a) over both regenerated models; tie: P:/D: events compared one by one in "
                      "the lockstep run of the extracted models; falsifiers: harness cbclause (the clause on both real CPUs, pending interrupts, registrations at the vector targets) and the RunUntil callback counts",
-        "checker_cmd_callbacks": "coqc build/work/Run/C12_cbq_<model>.v C12_cbs_<model>.v C12_cb_<model>.v (engine coq/Props/CbLib.v)",
+        "checker_cmd_callbacks": "coqc build/work/Run/C12_cbq_<model>.v C12_cbs_<model>.v C12_cb_<model>.v C12_stop.v (engine coq/Props/CbLib.v, static Props/StopProps.v)",
+        "stop_never_before": "Theorems C12_stop_only_stp_<model> (one Step: the Stopped field changes only when the opcode fetched - the byte of the fetch event of the callbacks clause - is $DB, and then to 1) and "
+                             "C12_stop_never_before_<model> / _since_reset_<model> (histories) over both regenerated models; falsifier: cpucases reports a stop flag that rises in a Step that fetched no $DB",
     })
 
 
